@@ -61,27 +61,27 @@ CHECKS = {
          "Generated programs run against std without fs/io (hand-written std.fs programs use a scratch directory only); a panic hook + catch_unwind is the observation.",
          "DESIGN.md section 3, C02"),
  "C04": ("proptest-generated typed programs printed as literal / fully hidden / partly hidden twins; differential oracle between the twins with the reference interpreter as referee and a constness analysis for the one permitted difference",
-         "40k generated programs per quick run (constants profile) x 3 printings; values incl. the effect log and all top-level names, and run-time error kinds must agree; a parse-time error of the literal version must be justified by a constant (or unclassifiable) failing operand. A partial-constant catalogue (~56k twins: every infix operator with one operand, or two of three in a chain of one level, constant - literal / in a cell / bound to a name - over boundary ints, floats, bools, strings and arrays) is enumerated completely.",
+         "80k generated programs per quick run (constants profile) x 3 printings; values incl. the effect log and all top-level names, and run-time error kinds must agree; a parse-time error of the literal version must be justified by a constant (or unclassifiable) failing operand. A partial-constant catalogue (~56k twins: every infix operator with one operand, or two of three in a chain of one level, constant - literal / in a cell / bound to a name - over boundary ints, floats, bools, strings and arrays) is enumerated completely.",
          "The hiding wrapper `*(mut T c)` is assumed opaque to the folding pass (Mut::recreate and indirection never fold); twins differing in type-check acceptance are discarded.",
          "DESIGN.md section 3, C04"),
  "C06": ("proptest-generated typed programs (scoping profile) against the reference interpreter (model-based oracle) on all top-level names, the effect log and errors",
-         "40k programs per quick run with a 4-name identifier pool plus the implementation's own helper names: shadowing in every body kind, binders deliberately spelled like visible variables, a differential over 19 binding constructs between a declaration and a typed use, closures capturing names redeclared later, shared cells, named recursion, parameters spelled like their function, user-written iterators with locals consumed by every operator; compared with an independent big-step evaluator written from the documentation; a generated (well-typed) program that the checker rejects is a violation.",
+         "80k programs per quick run with a 4-name identifier pool plus the implementation's own helper names: shadowing in every body kind, binders deliberately spelled like visible variables, a differential over 19 binding constructs between a declaration and a typed use, closures capturing names redeclared later, shared cells, named recursion, parameters spelled like their function, user-written iterators with locals consumed by every operator; compared with an independent big-step evaluator written from the documentation; a generated (well-typed) program that the checker rejects is a violation.",
          "Trusts the reference interpreter (genr/refi.rs); unspecified values (fillers of exhausted array iterators) discard a case when observable.",
          "DESIGN.md section 3, C06"),
  "C07": ("proptest-generated typed programs (effects profile) with tick calls in operand positions; oracle: the reference interpreter's effect log (exactly-once, left-to-right, short-circuit)",
-         "40k programs per quick run; subexpressions in operand positions of binary operators, calls, array/tuple/struct elements, slice bounds, [v; n], reduce, assignments, short-circuit operators, branches and match candidates are wrapped in tkN(k, e); the log sequence and all values must equal the reference's, in literal, hidden and partly hidden printings.",
+         "80k programs per quick run; subexpressions in operand positions of binary operators, calls, array/tuple/struct elements, slice bounds, [v; n], reduce, assignments, short-circuit operators, branches and match candidates are wrapped in tkN(k, e); the log sequence and all values must equal the reference's, in literal, hidden and partly hidden printings.",
          "Trusts the reference interpreter's order of evaluation, which follows the property text.",
          "DESIGN.md section 3, C07"),
  "C11": ("proptest-generated typed programs (iterator profile) against the reference interpreter's sequence semantics, laziness and pull order observed through the effect log",
-         "40k programs per quick run: array and user-written iterators over ints, floats and strings, pipelines of @ ? `? T`, reducers (incl. float / string sums with typed empty sources), partition, for loops, manual pulls (flag only after exhaustion), shared stateful iterators, effectful callbacks.",
+         "80k programs per quick run: array and user-written iterators over ints, floats and strings, pipelines of @ ? `? T`, reducers (incl. float / string sums with typed empty sources), partition, for loops, manual pulls (flag only after exhaustion), shared stateful iterators, effectful callbacks.",
          "Fillers of exhausted array iterators are unspecified and discard a case when observable; user-written iterators carry explicit fillers.",
          "DESIGN.md section 3, C11"),
  "C12": ("proptest-generated typed programs (control profile) against the reference interpreter",
-         "40k programs per quick run nesting if / match (value, disjoint and overlapping type arms, default arms; the same match executed on values of different types) / if-set (member, union and any tests) / while-set / loop / while / for / run-once loops inside functions with break, continue and return at every depth.",
+         "80k programs per quick run nesting if / match (value, disjoint and overlapping type arms, default arms; the same match executed on values of different types) / if-set (member, union and any tests) / while-set / loop / while / for / run-once loops inside functions with break, continue and return at every depth.",
          "Run-time type dispatch is only generated on scalars and on tuples, structs and cells of scalars, where the run-time type is unambiguous.",
          "DESIGN.md section 3, C12"),
  "C13": ("proptest-generated assignment histories over aliasing graphs against the reference heap, state inspection through the host API after run-time errors, plus the assignment part of the operand-type matrix under the verif monitor (cell typing under subsumption)",
-         "40k programs per quick run (cells profile): cells in bindings, aliases, closures, arrays; all 12 assignment operators incl. failing ones; every read, every yielded value, the aliasing structure of results and the cells still reachable after an error are compared; ~9k matrix and near-miss cases (cell widening, compound assignments with wider operands) check that every reachable cell - incl. the cells handed to a host call - holds a value of its declared type.",
+         "80k programs per quick run (cells profile): cells in bindings, aliases, closures, arrays; all 12 assignment operators incl. failing ones; every read, every yielded value, the aliasing structure of results and the cells still reachable after an error are compared; ~9k matrix and near-miss cases (cell widening, compound assignments with wider operands) check that every reachable cell - incl. the cells handed to a host call - holds a value of its declared type.",
          "Trusts the reference heap model; matrix part trusts hook H1/H2 observations.",
          "DESIGN.md section 3, C13"),
  "C05": ("repeated parse/run of generated and enumerated programs on fresh threads (fresh hash keys) with an all-repetitions-agree oracle (metamorphic: same input, different hash seeds), the same programs in fresh child processes and after unrelated work on one thread, plus type-level determinism laws across instances",
@@ -89,7 +89,7 @@ CHECKS = {
          "Hash keys come from the OS, not from VERIF_SEED: detection of an order-dependent defect is probabilistic per repetition; the check itself is deterministic on a correct tree.",
          "DESIGN.md section 3 C05 and section 7"),
  "C17": ("proptest-generated statement sequences split into REPL inputs (differential batch vs incremental route), double execution of one Code, and exhaustive create_call vs in-language call acceptance/result differential over the operand-type matrix",
-         "12k generated programs per quick run split into inputs of 1-3 statements and compared after every input on last result and all top-level variables; each program executed twice (equal results, disjoint cells, untouched interpreter); 72 fresh-state programs (fillers that are cells, cells made from constants in 26 positions, iterators over literals) executed four times from one Code against a fresh parse; ~390k host-vs-language call comparisons incl. ill-typed and wrong-arity argument lists (19 functions of arity 0-3: native iterators, std functions, parameters spelled like the function, recursion, captured cells).",
+         "20k generated programs per quick run split into inputs of 1-3 statements and compared after every input on last result and all top-level variables; each program executed twice (equal results, disjoint cells, untouched interpreter); 72 fresh-state programs (fillers that are cells, cells made from constants in 26 positions, iterators over literals) executed four times from one Code against a fresh parse; ~390k host-vs-language call comparisons incl. ill-typed and wrong-arity argument lists (19 functions of arity 0-3: native iterators, std functions, parameters spelled like the function, recursion, captured cells).",
          "Acceptance differences between batch and incremental routes are allowed by the property and end the comparison of a case.",
          "DESIGN.md section 3, C17"),
 }
